@@ -1,5 +1,6 @@
 //! C13 — every stored value is dropped exactly once; type erasure never lies.
 use crate::common::*;
+use crate::ledger::Tracked;
 use crate::hist::*;
 use crate::ledger;
 use crate::props::c02::{gen_ops, is_edit, is_mut};
@@ -113,7 +114,82 @@ fn erasure_checks(h: &UntypedHandle, stored: Ty, id: &str) {
     detsim::count("reach.type_erasure_probe");
 }
 
+/// A seed type without a destructor, loadable as a Compound.
+pub struct PlainSeed(pub u64);
+impl assets_manager::Compound for PlainSeed {
+    fn load(_: assets_manager::AnyCache, _: &assets_manager::SharedString) -> Result<Self, assets_manager::BoxedError> {
+        Ok(PlainSeed(7))
+    }
+}
+
+/// Cached `OnceInitCell`s hold two values over their life (the loaded seed, then the computed value): every one of
+/// them is dropped exactly once, through failing initialisers, reloads, removal and the drop of the cache.
+fn cached_cells(hist: u64) {
+    use assets_manager::{AssetCache, OnceInitCell};
+    let mut tree = Tree::default();
+    tree.put("c", "a", b"seed-1");
+    let src = SimSource::new(tree, HotMode::Custom, 3);
+    let mut cache = AssetCache::with_source(src.clone());
+    let live = || ledger::live().len();
+    let base = live();
+    let expect = |n: usize, what: &str| {
+        let l = ledger::live();
+        detsim::check(l.len() == base + n, "C13/live-values-differ-from-stored-values", || format!("cached OnceInitCell, {what}: {} tracked values alive, {} expected: {:?}", l.len() - base.min(l.len()), n, l));
+    };
+    {
+        let cell = cache.load::<OnceInitCell<LA, Tracked>>("c").expect("cell");
+        expect(1, "after the load (the seed)");
+        if hist % 2 == 0 {
+            let failed = cell.read().get_or_try_init(|_| Err::<Tracked, u8>(1)).is_err();
+            detsim::check(failed, "C13/harness", || "failing initialiser returned Ok".to_string());
+            expect(1, "after a failing initialiser (the seed is kept)");
+        }
+        if hist % 3 == 0 {
+            let r = std::panic::catch_unwind(std::panic::AssertUnwindSafe(|| {
+                cell.read().get_or_init(|_| std::panic::panic_any(detsim::InjectedPanic("initialiser".into())));
+            }));
+            detsim::check(r.is_err(), "C13/harness", || "panicking initialiser returned".to_string());
+            expect(1, "after a panicking initialiser (the seed is kept)");
+        }
+        if hist % 5 != 0 {
+            let _ = cell.read().get_or_init(|_| Tracked::new("cell value"));
+            expect(1, "after a successful initialiser (the value replaced the seed)");
+        }
+        // a seed without destructor, a value with one
+        let plain = cache.load::<OnceInitCell<PlainSeed, Tracked>>("p").expect("plain cell");
+        expect(1, "after loading a cell whose seed has no destructor");
+        if hist % 7 != 0 {
+            let _ = plain.read().get_or_init(|s| Tracked::new(format!("plain value {}", s.0)));
+            expect(2, "after initialising the cell whose seed has no destructor");
+        }
+    }
+    if hist % 4 < 2 {
+        // a reload replaces the whole cell: the old content is dropped, a new seed arrives
+        src.tree(|t| t.put("c", "a", b"seed-2"));
+        src.notify(file_entry("c", "a"));
+        cache.hot_reload();
+        expect(if hist % 7 != 0 { 2 } else { 1 }, "after a reload of the cell's file");
+    }
+    match hist % 3 {
+        0 => {
+            cache.remove::<assets_manager::OnceInitCell<LA, Tracked>>("c");
+            expect(if hist % 7 != 0 { 1 } else { 0 }, "after removing the cell");
+            cache.remove::<assets_manager::OnceInitCell<PlainSeed, Tracked>>("p");
+            expect(0, "after removing both cells");
+        }
+        1 => {
+            cache.clear();
+            expect(0, "after clear");
+        }
+        _ => {}
+    }
+    drop(cache);
+    expect(0, "after the cache was dropped");
+    detsim::count("reach.cached_once_init_cells");
+}
+
 fn scenario(w: Work) {
+    cached_cells(fnv(serde_json::to_string(&w.ops).unwrap().as_bytes()) >> 8);
     let u = universe();
     let mut all_ids = u.ids.clone();
     all_ids.extend(u.dirs.iter().cloned());
